@@ -166,3 +166,5 @@ func safeSource(n *ref.Node, o ref.PrintOpts) (src string, ok bool) {
 	}()
 	return n.SourceOpts(o), true
 }
+
+func toRealPlain(v ref.Value) value.Value { return bridge.ToReal(v, bridge.Variant{}) }
